@@ -11,7 +11,7 @@ package remote
 //   op line:  C05 hist <cfg> <dom0> <dom1> <msgs>
 //     cfg  = <mtasts><preload><dane><dnssec>.<local: - | <minTLS><minMX>>.<override><relaxed>.<reuseLimit>
 //     dom  = <mxAD><sts a|n|t|e>:<mx>[;<mx>]     (MX candidates in preference order)
-//     mx   = <srv>.<up>.<starttls o|s|h|c>.<cert v|u|w>.<stsMatch>.<aAD>.<tlsaAD>.<tlsa n|e|t|m|u|f>.<reqtls>
+//     mx   = <srv>.<up>.<starttls o|s|h|c>.<cert v|u|w>.<stsMatch>.<aAD>.<tlsaAD>.<tlsa n|e|t|m|u|f>.<reqtls>.<slow TLSA answer>
 //     msgs = <msg>[/<msg>…]   msg = <requireTLS><tlsRequiredNo><quarantine 0|1|2>:<dom>[,<dom>…]
 //
 //   observation (one line): per message  r:<dom>=<ok|temp|perm>,… d:<srv>.<tls>.<requiretls param>.<reused>,…
@@ -47,6 +47,7 @@ import (
 	"github.com/foxcpp/go-mtasts"
 	"github.com/foxcpp/maddy/framework/buffer"
 	"github.com/foxcpp/maddy/framework/config"
+	"github.com/foxcpp/maddy/framework/dns"
 	"github.com/foxcpp/maddy/framework/exterrors"
 	"github.com/foxcpp/maddy/framework/log"
 	"github.com/foxcpp/maddy/framework/module"
@@ -66,6 +67,7 @@ type c05MX struct {
 	tlsaAD   bool // AD on the TLSA lookup
 	tlsa     byte // n none, e EE matching, t TA matching, m mismatching, u unusable only, f SERVFAIL
 	reqtls   bool // server implements REQUIRETLS
+	slow     bool // the TLSA answer for this host is delayed (fault sequence: lookup latency)
 }
 
 type c05Dom struct {
@@ -102,7 +104,7 @@ func c05b(b bool) string {
 }
 
 func (m c05MX) String() string {
-	return fmt.Sprintf("%d.%s.%c.%c.%s.%s.%s.%c.%s", m.srv, c05b(m.up), m.starttls, m.cert, c05b(m.stsMatch), c05b(m.aAD), c05b(m.tlsaAD), m.tlsa, c05b(m.reqtls))
+	return fmt.Sprintf("%d.%s.%c.%c.%s.%s.%s.%c.%s.%s", m.srv, c05b(m.up), m.starttls, m.cert, c05b(m.stsMatch), c05b(m.aAD), c05b(m.tlsaAD), m.tlsa, c05b(m.reqtls), c05b(m.slow))
 }
 
 func (d c05Dom) String() string {
@@ -139,7 +141,7 @@ func (h c05Hist) Op() string {
 
 func c05ParseMX(s string) (c05MX, error) {
 	f := strings.Split(s, ".")
-	if len(f) != 9 || len(f[2]) != 1 || len(f[3]) != 1 || len(f[7]) != 1 {
+	if len(f) != 10 || len(f[2]) != 1 || len(f[3]) != 1 || len(f[7]) != 1 {
 		return c05MX{}, errors.New("bad mx " + s)
 	}
 	srv, err := strconv.Atoi(f[0])
@@ -147,7 +149,7 @@ func c05ParseMX(s string) (c05MX, error) {
 		return c05MX{}, err
 	}
 	return c05MX{srv: srv, up: f[1] == "1", starttls: f[2][0], cert: f[3][0], stsMatch: f[4] == "1", aAD: f[5] == "1",
-		tlsaAD: f[6] == "1", tlsa: f[7][0], reqtls: f[8] == "1"}, nil
+		tlsaAD: f[6] == "1", tlsa: f[7][0], reqtls: f[8] == "1", slow: f[9] == "1"}, nil
 }
 
 func c05ParseDom(s string) (c05Dom, error) {
@@ -367,7 +369,7 @@ func (c c05RefuseTLSConn) Read(p []byte) (int, error) {
 	}
 }
 
-func c05StartServer(t *testing.T, w *c05World, pki *c05PKI, mx c05MX) *smtp.Server {
+func c05StartServer(t *testing.T, w *c05World, pki *c05PKI, mx c05MX) (*smtp.Server, net.Listener) {
 	addr := fmt.Sprintf("127.0.0.%d:%s", mx.srv, smtpPort)
 	var l net.Listener
 	var err error
@@ -384,6 +386,7 @@ func c05StartServer(t *testing.T, w *c05World, pki *c05PKI, mx c05MX) *smtp.Serv
 	s.Domain = "localhost"
 	s.AllowInsecureAuth = true
 	s.EnableREQUIRETLS = mx.reqtls
+	s.ErrorLog = c05NopLog{}
 	if mx.starttls != 's' {
 		s.TLSConfig = &tls.Config{Certificates: []tls.Certificate{pki.chain[mx.cert]}}
 		if mx.starttls == 'h' {
@@ -395,11 +398,13 @@ func c05StartServer(t *testing.T, w *c05World, pki *c05PKI, mx c05MX) *smtp.Serv
 		l = c05RefuseTLSListener{l}
 	}
 	go s.Serve(l)
-	// make sure Serve registered the listener before anybody can call Close
+	// make sure Serve registered the listener before anybody can call Close: wait for a greeting
 	if c, err := net.Dial("tcp", addr); err == nil {
+		c.SetReadDeadline(time.Now().Add(10 * time.Second))
+		c.Read(make([]byte, 64))
 		c.Close()
 	}
-	return s
+	return s, l
 }
 
 // ---------------------------------------------------------------- world set-up
@@ -446,11 +451,13 @@ func c05Zones(h c05Hist, pki *c05PKI) map[string]mockdns.Zone {
 }
 
 type c05Env struct {
-	tgt     *Target
-	dnsSrv  *mockdns.Server
-	servers []*smtp.Server
-	sts     *mtastsPolicy
-	world   *c05World
+	tgt      *Target
+	dnsSrv   *mockdns.Server
+	servers  []*smtp.Server
+	lns      []net.Listener
+	dnsFront *miekgdns.Server
+	sts      *mtastsPolicy
+	world    *c05World
 }
 
 func (e *c05Env) Close() {
@@ -461,6 +468,12 @@ func (e *c05Env) Close() {
 	for _, s := range e.servers {
 		s.Close()
 	}
+	for _, l := range e.lns {
+		l.Close()
+	}
+	if e.dnsFront != nil {
+		e.dnsFront.Shutdown()
+	}
 	e.dnsSrv.Close()
 }
 
@@ -468,11 +481,29 @@ var c05Quiet = log.Logger{Out: log.NopOutput{}, Name: "c05"}
 
 func c05Setup(t *testing.T, h c05Hist, pki *c05PKI, rng *vh.Rng, verbose bool) *c05Env {
 	zones := c05Zones(h, pki)
-	dnsSrv, tgt := targetWithExtResolver(t, zones)
+	dnsSrv, tgt := c05TargetWithExtResolver(t, zones)
 	env := &c05Env{tgt: tgt, dnsSrv: dnsSrv, world: &c05World{mails: map[string]int{}}}
 	if !verbose {
 		tgt.Log = c05Quiet
-		dnsSrv.Log = c05NopLog{}
+	}
+	slow := map[string]bool{}
+	for _, d := range h.doms {
+		for _, m := range d.mxs {
+			if m.slow {
+				slow["_25._tcp."+c05MXHost(m)] = true
+			}
+		}
+	}
+	if len(slow) > 0 {
+		pc, err := net.ListenPacket("udp4", "127.0.0.1:0")
+		if err != nil {
+			t.Fatal(err)
+		}
+		started := make(chan struct{})
+		env.dnsFront = &miekgdns.Server{PacketConn: pc, Handler: c05SlowDNS{inner: dnsSrv, slow: slow}, NotifyStartedFunc: func() { close(started) }}
+		go env.dnsFront.ActivateAndServe()
+		<-started
+		tgt.extResolver.Cfg.Port = strconv.Itoa(pc.LocalAddr().(*net.UDPAddr).Port)
 	}
 	tgt.tlsConfig = &tls.Config{RootCAs: pki.roots}
 	tgt.connReuseLimit = h.cfg.reuse
@@ -554,16 +585,59 @@ func c05Setup(t *testing.T, h c05Hist, pki *c05PKI, rng *vh.Rng, verbose bool) *
 		for _, m := range d.mxs {
 			if m.up && !seen[m.srv] {
 				seen[m.srv] = true
-				env.servers = append(env.servers, c05StartServer(t, env.world, pki, m))
+				s, l := c05StartServer(t, env.world, pki, m)
+				env.servers = append(env.servers, s)
+				env.lns = append(env.lns, l)
 			}
 		}
 	}
 	return env
 }
 
+// targetWithExtResolver of dane_delivery_test.go, except that the DNS server start is retried:
+// mockdns binds UDP on the port the kernel chose for TCP and gives up if that one is taken,
+// which does happen once in a few thousand starts.
+func c05TargetWithExtResolver(t *testing.T, zones map[string]mockdns.Zone) (*mockdns.Server, *Target) {
+	var dnsSrv *mockdns.Server
+	var err error
+	for i := 0; i < 50; i++ {
+		if dnsSrv, err = mockdns.NewServerWithLogger(zones, c05NopLog{}, false); err == nil {
+			break
+		}
+	}
+	if err != nil {
+		t.Fatal(err)
+	}
+	addr := dnsSrv.LocalAddr().(*net.UDPAddr)
+	extResolver, err := dns.NewExtResolver()
+	if err != nil {
+		t.Fatal(err)
+	}
+	extResolver.Cfg.Servers = []string{addr.IP.String()}
+	extResolver.Cfg.Port = strconv.Itoa(addr.Port)
+	return dnsSrv, testTarget(t, zones, extResolver, nil)
+}
+
 type c05NopLog struct{}
 
 func (c05NopLog) Printf(string, ...interface{}) {}
+func (c05NopLog) Println(...interface{})        {}
+
+// DNS front end that delays the TLSA answers of selected hosts and otherwise hands the query
+// to the mockdns server (lookup latency is part of the fault sequence).
+const c05SlowDelay = 60 * time.Millisecond
+
+type c05SlowDNS struct {
+	inner miekgdns.Handler
+	slow  map[string]bool
+}
+
+func (h c05SlowDNS) ServeDNS(w miekgdns.ResponseWriter, m *miekgdns.Msg) {
+	if len(m.Question) == 1 && m.Question[0].Qtype == miekgdns.TypeTLSA && h.slow[strings.ToLower(m.Question[0].Name)] {
+		time.Sleep(c05SlowDelay)
+	}
+	h.inner.ServeDNS(w, m)
+}
 
 // ---------------------------------------------------------------- running a history
 
@@ -844,8 +918,13 @@ func c05Monitor(out *vh.Out, h c05Hist, obs []c05MsgObs, events []c05Event) {
 				}
 			}
 			// "delivered" must mean some MX of the domain holds the content, and the converse
-			if (res == "ok") != got {
-				out.Violation("C05/status-vs-ground-truth", op, fmt.Sprintf("message %d recipient %d: status %s but content received=%v", mi, i, res, got))
+			// (per domain: recipients of one domain share the transaction)
+			anyOK := false
+			for j, dj := range m.rcpts {
+				anyOK = anyOK || (dj == di && obs[mi].rcpt[j] == "ok")
+			}
+			if anyOK != got {
+				out.Violation("C05/status-vs-ground-truth", op, fmt.Sprintf("message %d domain %d: a recipient reported delivered=%v but content received=%v", mi, di, anyOK, got))
 			}
 			// quarantined before the recipients: refused; quarantined later: refused unless the
 			// recipient had already failed for another reason
@@ -896,6 +975,7 @@ func c05GenMX(r *vh.Rng, srv int) c05MX {
 		tlsaAD:   r.Chance(75),
 		tlsa:     pickB("netmuf", 25, 20, 15, 12, 10, 18),
 		reqtls:   r.Chance(60),
+		slow:     r.Chance(4),
 	}
 }
 
@@ -1004,17 +1084,36 @@ func c05MustParse(op string) c05Hist {
 func c05SystematicBases() []c05Hist {
 	return []c05Hist{
 		// strong policies, MX offers nothing: only an override message can get through
-		c05MustParse("C05 hist 1011.21.11.10 1e:1.1.s.v.0.1.1.n.0 0a:3.1.s.v.0.0.0.n.0 000:0"),
+		c05MustParse("C05 hist 1011.21.11.10 1e:1.1.s.v.0.1.1.n.0.0 0a:3.1.s.v.0.0.0.n.0.0 000:0"),
 		// strong policies, good MX
-		c05MustParse("C05 hist 1011.21.11.10 1e:1.1.o.v.1.1.1.e.1 0t:3.1.o.v.1.1.1.n.0 000:0"),
+		c05MustParse("C05 hist 1011.21.11.10 1e:1.1.o.v.1.1.1.e.1.0 0t:3.1.o.v.1.1.1.n.0.0 000:0"),
 		// DANE only, TLSA lookups fail
-		c05MustParse("C05 hist 0010.-.10.10 0a:1.1.o.v.0.1.1.f.0 0a:3.1.o.u.0.1.1.f.0 000:0"),
+		c05MustParse("C05 hist 0010.-.10.10 0a:1.1.o.v.0.1.1.f.0.0 0a:3.1.o.u.0.1.1.f.0.0 000:0"),
 		// MTA-STS enforce with an unlisted first MX and a listed second one, self-signed
-		c05MustParse("C05 hist 1000.10.11.10 0e:1.1.o.v.0.0.0.n.1;2.1.o.u.1.0.0.n.1 0e:3.1.o.v.1.0.0.n.0 000:0"),
+		c05MustParse("C05 hist 1000.10.11.10 0e:1.1.o.v.0.0.0.n.1.0;2.1.o.u.1.0.0.n.1.0 0e:3.1.o.v.1.0.0.n.0.0 000:0"),
 		// weak configuration: no policies at all
-		c05MustParse("C05 hist 0000.-.10.1 0a:1.1.h.v.0.0.0.n.0 0a:3.1.o.w.0.0.0.n.1 000:0"),
+		c05MustParse("C05 hist 0000.-.10.1 0a:1.1.h.v.0.0.0.n.0.0 0a:3.1.o.w.0.0.0.n.1.0 000:0"),
 		// relaxed REQUIRETLS, MX without the extension, second domain plaintext
-		c05MustParse("C05 hist 1000.-.11.10 0t:1.1.o.v.1.0.0.n.0 0t:3.1.s.v.1.0.0.n.0 000:0"),
+		c05MustParse("C05 hist 1000.-.11.10 0t:1.1.o.v.1.0.0.n.0.0 0t:3.1.s.v.1.0.0.n.0.0 000:0"),
+	}
+}
+
+// histories that are run in every tier and for every seed: the shortest replays of the three
+// defects found on the unchanged tree (each is a VIOLATION again if its fix is reverted).
+func c05FixedOps() []string {
+	return []string{
+		// a connection opened for a TLS-Required: No message is pooled and reused
+		"C05 hist 1011.21.11.10 1e:1.1.s.v.0.1.1.n.0.0 0a:3.1.s.v.0.0.0.n.0.0 010:0/000:0",
+		"C05 hist 0010.-.10.10 0a:1.1.o.v.0.1.1.f.0.0 0a:3.1.o.u.0.1.1.f.0.0 010:0/000:0",
+		// relaxed REQUIRETLS cleared the flag for the following recipient domains
+		"C05 hist 1000.-.11.10 0t:1.1.o.v.1.0.0.n.0.0 0t:3.1.s.v.1.0.0.n.0.0 100:0,1",
+		"C05 hist 0001.01.11.10 1t:1.1.o.v.1.0.1.e.1.0 1n:3.1.o.v.1.0.1.u.0.0 100:1,0",
+		"C05 hist 1011.-.01.0 0a:1.1.o.v.1.1.1.n.0.0 0e:3.1.o.v.1.0.1.n.0.0 110:0,1,0/000:0",
+		// the TLSA lookup of an abandoned MX candidate answered for the next one
+		// (first candidate down / refused by local_policy / other domain; next candidate's answer is slow)
+		"C05 hist 0010.-.10.10 0a:1.0.o.v.0.1.1.n.0.0;2.1.o.v.0.1.1.m.0.1 0a:3.1.o.v.0.1.1.n.0.0 000:0",
+		"C05 hist 1010.01.10.10 0t:1.1.o.v.0.1.1.n.0.0;2.1.o.v.1.1.1.f.0.1 0a:3.1.o.v.0.1.1.n.0.0 000:0",
+		"C05 hist 0010.-.10.10 0a:1.1.s.v.0.1.1.e.0.1 0a:3.0.o.v.0.1.1.n.0.1 000:1,0",
 	}
 }
 
@@ -1042,6 +1141,7 @@ func c05OneCase(t *testing.T, out *vh.Out, pki *c05PKI, h c05Hist, rng *vh.Rng, 
 	c05Monitor(out, h, obs, events)
 
 	// distribution
+	c05DeliveryStats(out, h, events)
 	out.Stat(fmt.Sprintf("c05.msgs=%d", len(h.msgs)))
 	out.Stat(fmt.Sprintf("c05.mx0=%d", len(h.doms[0].mxs)))
 	pooledUse := false
@@ -1078,19 +1178,96 @@ func c05OneCase(t *testing.T, out *vh.Out, pki *c05PKI, h c05Hist, rng *vh.Rng, 
 }
 
 func c05ErrKind(e string) string {
-	for _, k := range []string{"quarantined", "REQUIRETLS", "MTA-STS", "DANE", "No matching TLSA", "MX record authenticity", "TLS it not available",
-		"does not support REQUIRETLS", "TLS not available due", "connection refused", "SERVFAIL", "Network I/O"} {
-		if strings.Contains(e, k) {
-			return strings.ReplaceAll(k, " ", "_")
+	for _, k := range [][2]string{
+		{"quarantined", "quarantined"},
+		{"unauthenticated but required (REQUIRETLS)", "requiretls-tls-level"},
+		{"MX record authenticity (REQUIRETLS)", "requiretls-mx-level"},
+		{"MX record authenticity (MTA-STS)", "mtasts-mx-not-listed"},
+		{"unavailable or failed (MTA-STS)", "mtasts-no-tls"},
+		{"authentication is required by MTA-STS", "mtasts-no-pkix"},
+		{"enforced by DANE", "dane-no-tls"},
+		{"No matching TLSA", "dane-mismatch"},
+		{"Failed to establish the MX record authenticity", "local-min-mx"},
+		{"unauthenticated but required", "local-min-tls"},
+		{"does not support REQUIRETLS", "mail-requiretls-unsupported"},
+		{"TLS not available due", "starttls-refused"},
+		{"connection refused", "mx-down"},
+		{"SERVFAIL", "tlsa-servfail"},
+	} {
+		if strings.Contains(e, k[0]) {
+			return k[1]
 		}
 	}
 	return "other"
+}
+
+// c05DeliveryStats records which paths of the code the deliveries of this history took.
+func c05DeliveryStats(out *vh.Out, h c05Hist, events []c05Event) {
+	for _, e := range events {
+		if e.kind != "data" {
+			continue
+		}
+		m := h.msgs[e.msg]
+		di, mx := c05FindMX(h, e.srv)
+		pos := 0
+		for i, x := range h.doms[di].mxs {
+			if x.srv == e.srv {
+				pos = i
+			}
+		}
+		out.Stat(fmt.Sprintf("c05.deliver.mx-candidate=%d/%d", pos+1, len(h.doms[di].mxs)))
+		out.Stat(fmt.Sprintf("c05.deliver.starttls=%c.cert=%c.tls=%s", mx.starttls, mx.cert, c05b(e.tls)))
+		f := c05PoliciesInForce(h.cfg, m)
+		if e.tls && mx.cert != 'v' && ((f.local && h.cfg.minTLS == 2) || m.requireTLS) {
+			out.Stat("c05.deliver.authenticated-by-dane-only")
+		}
+		if f.dane && c05Discovery(mx) != "none" {
+			out.Stat("c05.deliver.dane-in-force.discovery=" + c05Discovery(mx))
+		}
+		if f.mtasts {
+			out.Stat(fmt.Sprintf("c05.deliver.mtasts-in-force.sts=%c.listed=%s", h.doms[di].sts, c05b(mx.stsMatch)))
+		}
+		if m.requireTLS {
+			out.Stat(fmt.Sprintf("c05.deliver.requiretls.param=%s.server-ext=%s.relaxed=%s", c05b(e.rtParm), c05b(mx.reqtls), c05b(h.cfg.relaxed)))
+		}
+		if e.reused {
+			kind := "plain"
+			if m.tlsNo && h.cfg.override {
+				kind = "override"
+			}
+			out.Stat("c05.deliver.reused-by=" + kind)
+		} else if e.msg > 0 {
+			// a new connection although an earlier message of the history was delivered to this server
+			for _, e0 := range events {
+				if e0.kind == "data" && e0.srv == e.srv && e0.msg < e.msg {
+					why := "reuse-limit-or-override"
+					if m.requireTLS {
+						why = "requiretls-bypass"
+					}
+					out.Stat("c05.deliver.new-conn-after-earlier-delivery." + why)
+					break
+				}
+			}
+		}
+	}
+	out.Stat(fmt.Sprintf("c05.cfg.policies=%d", len(strings.ReplaceAll(h.cfg.String()[:4], "0", ""))))
+	out.Stat(fmt.Sprintf("c05.cfg.reuse=%d", h.cfg.reuse))
 }
 
 func TestVerifC05(t *testing.T) {
 	out := vh.Open("c05")
 	defer out.Close()
 	pki := c05NewPKI()
+
+	// the package-level logger: silence it, but count the futures that were set twice (a lookup
+	// goroutine delivering its result to a future it was not started for)
+	savedOut := log.DefaultLogger.Out
+	defer func() { log.DefaultLogger.Out = savedOut }()
+	log.DefaultLogger.Out = log.FuncOutput(func(_ time.Time, _ bool, str string) {
+		if strings.Contains(str, "Future.Set called multiple times") {
+			out.Stat("c05.future-set-twice")
+		}
+	}, func() error { return nil })
 
 	// a port on which 127.0.0.1-3 are all free
 	saved := smtpPort
@@ -1130,6 +1307,10 @@ func TestVerifC05(t *testing.T) {
 	}
 
 	rng := vh.NewRng(vh.Seed() + 5)
+	for _, op := range c05FixedOps() {
+		c05OneCase(t, out, pki, c05MustParse(op), rng, false)
+		out.Stat("c05.fixed")
+	}
 	// systematic part: every 1-3 message history over the message kinds, on fixed worlds
 	maxLen := 2
 	if vh.Thorough() {
